@@ -262,7 +262,7 @@ func genNest(t *rapid.T) string {
 
 // ---- the test ------------------------------------------------------------
 
-const rule = "inputs: (E) every sequence of <=k vocabulary tokens in 12 tag framings; (R) random token soup <=60 tokens, byte-level mutations (prefix, suffix, delete, duplicate, insert hostile fragment, swap, replace) of 277 templates harvested from the repository's tests, nesting generators to depth 256; (F, thorough) native coverage-guided fuzzing. Oracle: parser.Parse / plush.Parse return a value or an error, never panic, never exceed the lexer token budget (32*len+65536 NextToken calls) and program.String() prints. Non-trivial = input contains a tag opener and is unbalanced/truncated or is rejected with an error; distinct by input text."
+const rule = "inputs: (E) every sequence of <=k vocabulary tokens (k = 2 quick, 3 thorough, and 4 over the 24 most structural spellings in the thorough tier) in 12 tag framings; (R) random token soup <=60 tokens, byte-level mutations (prefix, suffix, delete, duplicate, insert hostile fragment, swap, replace) of 277 templates harvested from the repository's tests, nesting generators to depth 256; (F, thorough) native coverage-guided fuzzing. Oracle: parser.Parse / plush.Parse return a value or an error, never panic, never exceed the lexer token budget (32*len+65536 NextToken calls) and program.String() prints. Non-trivial = input contains a tag opener and is unbalanced/truncated or is rejected with an error; distinct by input text."
 
 func setup(t *testing.T) *vk.Run {
 	r := vk.Start(t, "C03", rule,
@@ -328,6 +328,23 @@ func TestProp(t *testing.T) {
 			fr := frames[i%int64(len(frames))]
 			body := seq(i/int64(len(frames)), kk)
 			r.Check(checkSrc(r, fr.pre+body+fr.post, fr.name))
+		})
+	}
+	// E (thorough): sequences of 4 tokens over the 24 most structural spellings
+	if r.Thorough() {
+		core := []string{"if", "else", "for", "in", "fn", "let", "return", "break", "a", "1", `"s"`, "(", ")", "{", "}", "[", "]", ",", ":", ".", "=", "<%", "<%=", "%>"}
+		nc := int64(len(core))
+		total := nc * nc * nc * nc * int64(len(frames))
+		r.Subspace(fmt.Sprintf("token sequences of length 4 over %d structural spellings x %d framings", nc, len(frames)), total, true)
+		r.Parallel(total, 0, func(i int64) {
+			fr := frames[i%int64(len(frames))]
+			j := i / int64(len(frames))
+			parts := make([]string, 4)
+			for k := 3; k >= 0; k-- {
+				parts[k] = core[j%nc]
+				j /= nc
+			}
+			r.Check(checkSrc(r, fr.pre+strings.Join(parts, " ")+fr.post, fr.name))
 		})
 	}
 	// E: every prefix and every suffix of every harvested template
